@@ -6,7 +6,10 @@ use super::wake_queue::*;
 use super::desync_scheduler::*;
 
 use futures::prelude::*;
+#[cfg(not(desync_verif))]
 use futures::channel::oneshot;
+#[cfg(desync_verif)]
+use crate::verif::oneshot;
 use futures::task;
 
 use std::mem;
